@@ -1,3 +1,8 @@
 import OH.Model.ExtendedTime
 import OH.Props.C19
 import OH.Model.SortedVec
+import OH.Model.Calendar
+import OH.Model.Syntax
+import OH.Model.Schedule
+import OH.Model.Eval
+import OH.Model.Iter
